@@ -10,8 +10,8 @@ from mc.ref import htmldoc as HD, cssdoc as CD
 ID = 'C17'
 
 BOUNDS = {
-    'quick': dict(html_plain=2, html_attrs=2, css_nodes=4, rotations=3),
-    'thorough': dict(html_plain=4, html_attrs=3, css_nodes=5, rotations=6),
+    'quick': dict(html_plain=2, html_attrs=2, css_nodes=4, rotations=4),
+    'thorough': dict(html_plain=4, html_attrs=3, css_nodes=5, rotations=8),
 }
 NSH = 48
 ATTRS = HD.ATTR_SETS + HD.ATTR_SETS_ACTIONS
